@@ -227,7 +227,11 @@ pub fn gen_c18(rng: &mut Rng) -> Value {
     for i in 0..n {
         let op = *rng.pick(&ops);
         let by_key = rng.chance(1, 2);
-        let dest = match rng.below(8) {
+        let dest = match rng.below(9) {
+            8 if i > 0 => {
+                // the destination of an earlier extraction of this run (possibly a hard link to the content file)
+                format!("$O/f{}", rng.below(i))
+            }
             0 => {
                 // existing file, longer than the data
                 steps.push(json!({"k":"env","act":"write_file","path":format!("$O/e{i}"),"hex":"ee".repeat((len as usize + 10).min(5000))}));
